@@ -663,3 +663,19 @@ def depends(F, fn, d, op, max_locals=400, use_bb=None):
                     st.append({"cp": rv["place"]})
                 st.extend(rv.get("ops", []) or [])
     return out
+
+
+def origin_deep(d, op, through=()):
+    """origin of a value, continued through struct literals: `x.f` where x = S { f: v, .. } resolves to the origin of v"""
+    o = d.origin_op(op, through)
+    for _ in range(6):
+        base, prs = o, []
+        while base.get("k") == "field":
+            prs = [e.get("f") for e in base.get("proj", []) if isinstance(e, dict)] + prs
+            base = base["base"]
+        if base.get("k") == "agg" and base["rv"].get("agg") == "adt" and len(prs) == 1 and isinstance(prs[0], int) and \
+                prs[0] < len(base["rv"].get("ops", []) or []):
+            o = d.origin_op(base["rv"]["ops"][prs[0]], through)
+            continue
+        break
+    return o
